@@ -108,7 +108,7 @@ def plan(tier, seed):
         "shards": shards,
         "min_evaluations": 60,
         "watchdog_s": 1500 if q else 3400,
-        "assumptions": ["a same-second same-size source edit is outside the property", "function reprs, gensym counters and memory addresses are normalised out of snapshots", "corruption other than truncation / header perturbation is out of scope"],
+        "assumptions": ["a same-second same-size source edit is outside the property", "function reprs, gensym counters and memory addresses are normalised out of snapshots", "iteration order of hash collections, and the insertion order of Python dicts / sets built from them, is normalised out of snapshots", "corruption other than truncation / header perturbation is out of scope"],
     }
 
 
@@ -195,6 +195,13 @@ def child_main(cfg):
                 return "#{" + " ".join(sorted(canon_pr(x, depth + 1) for x in v)) + "}"
             if isinstance(v, _I.IPersistentVector):
                 return "[" + " ".join(canon_pr(x, depth + 1) for x in v) + "]"
+            # Python collections built from a map / set literal inherit the literal's hash order as their insertion order
+            if isinstance(v, dict):
+                return "#py {" + ", ".join(sorted(canon_pr(a, depth + 1) + " " + canon_pr(c, depth + 1) for a, c in v.items())) + "}"
+            if isinstance(v, (set, frozenset)):
+                return "#py #{" + " ".join(sorted(canon_pr(x, depth + 1) for x in v)) + "}"
+            if isinstance(v, (list, tuple)):
+                return "#py " + ("[" if isinstance(v, list) else "(") + " ".join(canon_pr(x, depth + 1) for x in v) + ("]" if isinstance(v, list) else ")")
             if isinstance(v, (_I.IPersistentList, _I.ISeq)) and not isinstance(v, str):
                 return "(" + " ".join(canon_pr(x, depth + 1) for x in itertools_islice(v)) + ")"
             if callable(v) and not isinstance(v, type) and not hasattr(v, "val_at"):
